@@ -150,9 +150,18 @@ func (gr GithubReporter) List(ctx context.Context, _ any) ([]ExistingComment, er
 	defer cancel()
 
 	slog.Debug("Getting the list of pull request comments", slog.Int("pr", gr.prNum))
-	existing, _, err := gr.client.PullRequests.ListComments(reqCtx, gr.owner, gr.repo, gr.prNum, nil)
-	if err != nil {
-		return nil, fmt.Errorf("failed to list pull request reviews: %w", err)
+	var existing []*github.PullRequestComment
+	opts := &github.PullRequestListCommentsOptions{ListOptions: github.ListOptions{}}
+	for {
+		page, resp, err := gr.client.PullRequests.ListComments(reqCtx, gr.owner, gr.repo, gr.prNum, opts)
+		if err != nil {
+			return nil, fmt.Errorf("failed to list pull request reviews: %w", err)
+		}
+		existing = append(existing, page...)
+		if resp == nil || resp.NextPage == 0 {
+			break
+		}
+		opts.Page = resp.NextPage
 	}
 
 	comments := make([]ExistingComment, 0, len(existing))
@@ -243,15 +252,22 @@ func (gr GithubReporter) findExistingReview(ctx context.Context) (*github.PullRe
 	reqCtx, cancel := gr.reqContext(ctx)
 	defer cancel()
 
-	reviews, _, err := gr.client.PullRequests.ListReviews(reqCtx, gr.owner, gr.repo, gr.prNum, nil)
-	if err != nil {
-		return nil, err
-	}
-
-	for _, review := range reviews {
-		if strings.HasPrefix(review.GetBody(), reviewBody) {
-			return review, nil
+	opts := &github.ListOptions{}
+	for {
+		reviews, resp, err := gr.client.PullRequests.ListReviews(reqCtx, gr.owner, gr.repo, gr.prNum, opts)
+		if err != nil {
+			return nil, err
 		}
+
+		for _, review := range reviews {
+			if strings.HasPrefix(review.GetBody(), reviewBody) {
+				return review, nil
+			}
+		}
+		if resp == nil || resp.NextPage == 0 {
+			break
+		}
+		opts.Page = resp.NextPage
 	}
 
 	return nil, nil
@@ -308,9 +324,18 @@ func (gr GithubReporter) listPRFiles(ctx context.Context) ([]*github.CommitFile,
 	defer cancel()
 
 	slog.Debug("Getting the list of modified files", slog.Int("pr", gr.prNum))
-	files, _, err := gr.client.PullRequests.ListFiles(reqCtx, gr.owner, gr.repo, gr.prNum, nil)
-	if err != nil {
-		return nil, fmt.Errorf("failed to list pull request files: %w", err)
+	var files []*github.CommitFile
+	opts := &github.ListOptions{}
+	for {
+		page, resp, err := gr.client.PullRequests.ListFiles(reqCtx, gr.owner, gr.repo, gr.prNum, opts)
+		if err != nil {
+			return nil, fmt.Errorf("failed to list pull request files: %w", err)
+		}
+		files = append(files, page...)
+		if resp == nil || resp.NextPage == 0 {
+			break
+		}
+		opts.Page = resp.NextPage
 	}
 	return files, nil
 }
